@@ -19,6 +19,10 @@ type c10Case struct {
 	When   string `json:"when"` // after-success | during-blocked | before | before-rounds
 	Delay  int    `json:"delay_us"`
 	Size   int    `json:"size"`
+	// Stall (reads, during-blocked): where the peer stops sending — "" nothing sent | header (one header byte) |
+	// payload (header + part of the payload) | continuation (first fragment, then header + part of the next) |
+	// ctl-inside (first fragment, then a ping's header + part of its payload)
+	Stall string `json:"stall,omitempty"`
 }
 
 // liveness: a round trip on the connection (write → peer echoes → read).
@@ -123,6 +127,30 @@ func runC10Case(cc c10Case) (string, string) {
 	} else {
 		close(drained)
 	}
+	if cc.When == "during-blocked" && cc.Stall != "" {
+		pm := !cc.Client
+		part := func(f RawFrame, keep int) []byte {
+			f.Masked, f.Key = pm, [4]byte{7, 7, 7, 7}
+			e := f.Encode()
+			if keep > len(e) {
+				keep = len(e)
+			}
+			return e[:keep]
+		}
+		body := historyMsg(600, 600)
+		switch cc.Stall {
+		case "header":
+			b.Write(part(RawFrame{Fin: true, Op: 2, Payload: body}, 1))
+		case "payload":
+			b.Write(part(RawFrame{Fin: true, Op: 2, Payload: body}, 14+len(body)/3))
+		case "continuation":
+			b.Write(part(RawFrame{Fin: false, Op: 2, Payload: body[:100]}, 1<<20))
+			b.Write(part(RawFrame{Fin: true, Op: 0, Payload: body[100:]}, 14+100))
+		case "ctl-inside":
+			b.Write(part(RawFrame{Fin: false, Op: 2, Payload: body[:100]}, 1<<20))
+			b.Write(part(RawFrame{Fin: true, Op: 9, Payload: []byte("0123456789abcdefghij")}, 10+cc.Delay%8))
+		}
+	}
 	if cc.When == "during-blocked" {
 		go func() {
 			time.Sleep(time.Duration(20000+cc.Delay) * time.Microsecond)
@@ -223,7 +251,7 @@ func runC10Case(cc c10Case) (string, string) {
 
 func runC10(ctx *runCtx) {
 	rep := ctx.rep
-	rep.Rule = "calls {Write, streaming Writer, Read of a single-frame message, Read of a fragmented message with an interleaved ping and an empty fragment, Ping} each with its own context, cancelled {after the call succeeded (then a liveness round trip), while the call is blocked, before the call} at varied delays, sizes 0..70000, both roles, compression on/off. " +
+	rep.Rule = "calls {Write, streaming Writer, Read of a single-frame message, Read of a fragmented message with an interleaved ping and an empty fragment, Ping} each with its own context, cancelled {after the call succeeded (then a liveness round trip), while the call is blocked (for reads: with nothing received, inside a header, inside a payload, inside a continuation frame, inside an interleaved control frame), before the call (also: ten rounds of a call with a dead context followed by the same call with a live one)} at varied delays, sizes 0..70000, both roles, compression on/off. " +
 		"oracle: after success cancellation has no effect (round trip succeeds); a blocked/cancelled call returns an error within 2 s and (read/write) the connection is closed. distinct = case tuple"
 	if ctx.replay != "" {
 		var cc c10Case
@@ -257,6 +285,11 @@ func runC10(ctx *runCtx) {
 					}
 				}
 			}
+		}
+	}
+	for _, st := range []string{"header", "payload", "continuation", "ctl-inside"} {
+		for _, client := range []bool{true, false} {
+			cases = append(cases, c10Case{Client: client, Flate: rng.Intn(2) == 0, Op: "read", When: "during-blocked", Delay: rng.Intn(3000), Size: 200, Stall: st})
 		}
 	}
 	for _, op := range []string{"write", "writer", "read", "ping"} {
